@@ -455,8 +455,9 @@ struct Exec {
     if (!s[o].a) return;
     out().pending = "tostr";
     std::string ta = s[o].a->to_string();
+    std::string dg = s[o].a->to_diagram();          // drawn from the offsets: not specified, but it must not read / write out of bounds
     std::string tu = s[o].u ? s[o].u->to_string() : std::string("null");
-    out().line("{\"e\":\"tostr\",\"o\":" + std::to_string(o) + ",\"a\":" + jbytes(ta) + ",\"u\":" + jbytes(tu) + "}");
+    out().line("{\"e\":\"tostr\",\"o\":" + std::to_string(o) + ",\"a\":" + jbytes(ta) + ",\"u\":" + jbytes(tu) + ",\"dn\":" + std::to_string(dg.size()) + "}");
   }
 
   // parse(get_href()) of each representation with no base; logged as the observation
